@@ -129,3 +129,9 @@ pub proof fn lemma_lit_bytes()
     vstd::utf8::is_ascii_chars_encode_utf8("."@); vstd::utf8::is_ascii_chars_encode_utf8(".."@); vstd::utf8::is_ascii_chars_encode_utf8("/"@);
     assert(".".spec_bytes() =~= DOT()); assert("..".spec_bytes() =~= DOTDOT()); assert("/".spec_bytes() =~= SLASH());
 }
+pub proof fn lemma_join_push(s: Seq<Seq<u8>>, x: Seq<u8>, sep: Seq<u8>)
+    ensures join(s.push(x), sep) == (if s.len() == 0 { x } else { join(s, sep) + sep + x })
+{
+    reveal_with_fuel(join, 2);
+    assert(s.push(x).drop_last() =~= s);
+}
